@@ -200,8 +200,36 @@ ALL = [d_nested_final_high_index, d_error_in_if, d_error_cond, d_basic, d_target
        d_raise_order, d_data, d_error_block, d_initial_el, d_nested_final_depth, d_toplevel_final,
        d_parallel_preempt, d_multi_target, d_late_binding]
 
+def d_event_prefix():
+    # descriptors match by TOKENS: "e" matches e and e.f but not ef, "ef" does not match e
+    # (the Promela and VHDL back-ends resolve descriptors statically through a character trie)
+    a = State(name="a", trans=[T("ef", ["c"]), T("e", ["b"])])
+    b = State(name="b", trans=[T("e.f", ["c"]), T("ef", ["a"])])
+    c = State(name="c", trans=[T("e", ["b"]), T("e.f ef", ["a"])])
+    return Chart(Scxml(a, b, c), tags=["names"])
+
+
+def d_history_nested():
+    # deep history of p with a nested shallow history in its child a: every state is recorded by exactly one
+    ha = History(["a1"], name="ha")
+    a1 = State(name="a1", trans=[T("e", ["a2"])])
+    a21 = State(name="a21", trans=[T("e", ["a22"])])
+    a22 = State(name="a22")
+    a2 = State(a21, a22, name="a2")
+    a = State(ha, a1, a2, name="a", trans=[T("f", ["b"])])
+    b = State(name="b", trans=[T("f", ["ha"])])
+    hp = History(["a"], deep=True, name="hp")
+    p = State(hp, a, b, name="p", trans=[T("out", ["q"])])
+    q = State(name="q", trans=[T("back", ["hp"])])
+    return Chart(Scxml(p, q), tags=["history", "deep", "nested"])
+
+
+ALL += [d_event_prefix, d_history_nested]
+
 # event words worth trying per directed chart (besides the generic enumeration)
 WORDS = {
+    "d_event_prefix": [["ef", "e", "e.f"], ["e.f", "ef", "e"], ["e", "e.f", "ef", "e"]],
+    "d_history_nested": [["e", "e", "out", "back"], ["e", "f", "f"], ["e", "e", "f", "f", "out", "back"], ["out", "back"]],
     "d_nested_final_high_index": [["e", "e", "e"]],
     "d_stale_conflict_cache": [["e1", "back", "e1", "back", "e2"]],
     "d_parallel_three_final": [["e1", "e2", "e3"], ["e3", "e1", "e2"]],
